@@ -2,6 +2,7 @@ package main
 
 import (
 	"fmt"
+	"os"
 	"go/types"
 	"sort"
 	"strings"
@@ -86,7 +87,7 @@ type Sample struct {
 type Stats struct {
 	Paths, Completed, AssumeKilled, Infeasible, Unwind, Unsupported, Outside, Unknown int
 	Panics, AssertsChecked, AssertsFailed                                         int
-	Forks                                                                         int
+	Forks, DomainDecided                                                          int
 	FeasQueries, AssertQueries, Sat, Unsat, UnknownQ                              int
 	Second, SecondDisagree                                                        int
 	SolverSec, Solver2Sec                                                         float64
@@ -106,6 +107,7 @@ func (a *Stats) add(b Stats) {
 	a.AssertsChecked += b.AssertsChecked
 	a.AssertsFailed += b.AssertsFailed
 	a.Forks += b.Forks
+	a.DomainDecided += b.DomainDecided
 	a.FeasQueries += b.FeasQueries
 	a.AssertQueries += b.AssertQueries
 	a.Sat += b.Sat
@@ -147,6 +149,9 @@ type Engine struct {
 	mapNondet bool
 
 	globals map[*ssa.Global]*Value
+	doms    map[string]*bitset
+	facts   map[string]bool
+	domHits int
 	bufs    map[*Value][]bufSeg
 	inInit  bool
 	expectPanic string
@@ -177,6 +182,12 @@ func (e *Engine) assertPC(t *Term) {
 	}
 	e.sol.Assert(t)
 	e.pc = append(e.pc, t)
+	e.narrow(t, true)
+	if t.op == "not" {
+		e.facts[t.args[0].s] = false
+	} else {
+		e.facts[t.s] = true
+	}
 }
 
 func (e *Engine) check(t *Term) string {
@@ -198,6 +209,25 @@ func (e *Engine) decide(cond *Term) bool {
 	if cond.konst {
 		return cond.bv
 	}
+	// cheap pre-check over the byte domains (deterministic, so re-execution
+	// from a decision prefix takes the same shortcut and the vector stays aligned)
+	switch e.eval3(cond) {
+	case d3T:
+		e.st.DomainDecided++
+		return true
+	case d3F:
+		e.st.DomainDecided++
+		return false
+	}
+	// facts already on the path condition (deterministic shortcut as above)
+	if v, ok := e.facts[cond.s]; ok {
+		return v
+	}
+	if cond.op == "not" {
+		if v, ok := e.facts[cond.args[0].s]; ok {
+			return !v
+		}
+	}
 	i := len(e.taken)
 	if i < len(e.prefix) {
 		d := e.prefix[i]
@@ -208,6 +238,9 @@ func (e *Engine) decide(cond *Term) bool {
 			e.assertPC(tNot(cond))
 		}
 		return d
+	}
+	if traceQueries && e.st.Paths <= 2 {
+		fmt.Fprintf(os.Stderr, "Q path=%d %s\n", e.st.Paths, cond.s)
 	}
 	ft := e.check(cond)
 	if ft == "unknown" {
@@ -371,6 +404,8 @@ func (e *Engine) resetPath(prefix []bool) {
 	e.notes = nil
 	e.mapNondet = false
 	e.globals = map[*ssa.Global]*Value{}
+	e.doms = map[string]*bitset{}
+	e.facts = map[string]bool{}
 	e.bufs = map[*Value][]bufSeg{}
 	e.expectPanic = ""
 	e.atomSeq = 0
@@ -655,3 +690,5 @@ func sortedKeys(m map[string]int) []string {
 	sort.Strings(ks)
 	return ks
 }
+
+var traceQueries = os.Getenv("VP_TRACE") != ""
